@@ -101,6 +101,12 @@ pub struct Net {
     pub trace: Vec<ExecEvent>,
     in_flight: Vec<(u64, u64, Vec<u8>, u64)>,
     seq: u64,
+    /// Waker handed to `PduTx::replace_waker`, as `tx_rx_task` does: the transmit side only looks for
+    /// sendable frames after it has been woken (`wake_faithful`; a missing `wake_sender()` then leaves
+    /// the frame unsent and the request runs into its deadline instead of being papered over).
+    tx_flag: Arc<Flag>,
+    tx_waker: std::task::Waker,
+    pub wake_faithful: bool,
     pub step_limit: u64,
     pub stats: NetStats,
     mem: Option<(usize, &'static mut [u64])>,
@@ -133,6 +139,8 @@ impl Net {
         let (tx, rx, pdu_loop) = st.split();
         let md: &'static MainDevice<'static> = Box::leak(Box::new(MainDevice::new(pdu_loop, timeouts, config)));
         clock::clear();
+        let tx_flag = Arc::new(Flag(AtomicBool::new(true)));
+        let tx_waker: std::task::Waker = tx_flag.clone().into();
         (
             Net {
                 tx,
@@ -148,6 +156,9 @@ impl Net {
                 trace: Vec::new(),
                 in_flight: Vec::new(),
                 seq: 0,
+                tx_flag,
+                tx_waker,
+                wake_faithful: true,
                 step_limit: 5_000_000,
                 stats: NetStats::default(),
                 mem: Some((words, mem)),
@@ -178,6 +189,13 @@ impl Net {
     /// Send everything the MainDevice has queued. Returns the number of frames sent.
     pub fn pump_tx(&mut self) -> usize {
         let mut n = 0;
+        if self.wake_faithful {
+            // the TX task of a real application: runs only when woken, re-registers its waker, then drains
+            if !self.tx_flag.0.swap(false, Ordering::SeqCst) {
+                return 0;
+            }
+            self.tx.replace_waker(&self.tx_waker);
+        }
         while let Some(frame) = self.tx.next_sendable_frame() {
             let mut bytes = Vec::new();
             let _ = frame.send_blocking(|b| {
